@@ -9,7 +9,7 @@
                  "sched" the same task under the scheduler.
    op = "names": a list of tasks with distinct names run one after the other
                  under one output root (RunNamed); a name is a sequence of
-                 atoms ("a", ".", "/", "NUL", "stdout", ..), the file system is
+                 atoms ("a", ".", "/", "NUL", "stdout", "dol", ..), the file system is
                  the set of paths (sequences of components) created so far,
                  each owned by the task that created it.
 
@@ -24,6 +24,7 @@ CONSTANTS MaxCmds,     \* commands per task
           Modes,       \* subset of {"direct", "sched"}
           Ops,         \* subset of {"run", "names"}
           NameLists,   \* set of sequences of distinct names
+          NameAlphabets, \* set of sets of atoms: the sub-alphabets of NL_Sub (chosen by the harness, rotating)
           RejectEmpty, \* BOOLEAN: the empty name is invalid (TRUE = intended; FALSE = the rule as coded)
           NoStart      \* model value: the command cannot be started
 
@@ -71,6 +72,11 @@ Obs == [status |-> status, raised |-> raised, escaped |-> escaped, rcs |-> rcs, 
 -----------------------------------------------------------------------------
 (* names and paths *)
 
+(* Only "/" and "NUL" cannot be part of a file name, and "", ".", ".." are no names of a directory of one's own.  Every
+   other atom is a letter like any other -- whatever a shell, the process environment, glob or path expansion would make
+   of it ("dol" = $, "dolbr" = ${, "rbr" = }, "tilde" = ~, "star", "qm", "pct", "bsl", quotes, newline, a leading "dash",
+   names that spell a reference to a variable of the process environment, ..): the directory of the task is named by
+   the name as it is written, so that DirOf is injective on valid names and stays below the root. *)
 Valid(n) == /\ RejectEmpty => n # <<>>
             /\ \A i \in DOMAIN n : n[i] \notin {"/", "NUL"}
             /\ n # <<".">> /\ n # <<".", ".">>
@@ -111,6 +117,11 @@ NL_None == {}
 NL_Singles == ListsOver(NamesUpTo(3), 1)
 NL_Pairs == ListsOver(NamesUpTo(2), 2)
 NL_Triples == ListsOver(Eight, 3)
+(* names over each sub-alphabet the harness passes (letters that are also names of other tasks / of environment variables,
+   and atoms some layer would interpret): all pairs of names of up to two atoms, all single names of up to three *)
+NamesOver(A, n) == UNION {[1 .. m -> A] : m \in 0 .. n}
+NL_Sub == UNION {ListsOver(NamesOver(A, 2), 2) \cup ListsOver(NamesOver(A, 3), 1) : A \in NameAlphabets}
+NL_SinglesSub == NL_Singles \cup NL_Sub
 
 -----------------------------------------------------------------------------
 NoCmds == <<>>
@@ -225,4 +236,9 @@ W_DoneAll      == ~(Ended /\ status = "DONE" /\ Len(rcs) >= 2 /\ Len(err) >= 2)
 W_SchedFailed  == ~(Ended /\ mode = "sched" /\ raised /\ status = "FAILED")
 W_Rejected     == ~(op = "names" /\ k > Len(names) /\ Cardinality(accepted) < Len(names) /\ accepted # {})
 W_NestedName   == ~(op = "names" /\ \E i \in DOMAIN names : Len(Components(names[i])) > 1)
+(* two accepted tasks: one name holds an atom some layer would interpret, the other is made of the letters "a" / "b" only
+   (e.g. <<"dol", "a">> and <<"b">>) *)
+W_OddNamePair  == ~(op = "names" /\ k > Len(names) /\ Cardinality(accepted) = 2
+                    /\ \E i, j \in accepted : /\ \E x \in DOMAIN names[i] : names[i][x] \notin Atoms \cup {"b"}
+                                              /\ names[j] # <<>> /\ \A x \in DOMAIN names[j] : names[j][x] \in {"a", "b"})
 =============================================================================
